@@ -343,6 +343,94 @@ pub fn gen_huge_config(rng: &mut Rng) -> Config {
     }
 }
 
+/// Directed "extremes" scenarios for the asynchronous kinds: the margins of the internal buffers and of the
+/// advertised sizes are tightest when the largest step max_rel / ratio is (mathematically) an exact integer --
+/// where 1/(ratio/max_rel) and max_rel/ratio can round to different sides of it --, the stream runs at exactly
+/// the lowest ratio and then jumps to the highest, and the chunk size sweeps all residues modulo the step.
+pub fn gen_extreme_directed(rng: &mut Rng, kind: Kind) -> (Config, Vec<Op>) {
+    let ratio = ((rng.log_uniform(0.1, 4.0) * 100.0).round() / 100.0).max(0.07);
+    let k = rng.usize_in(2, 16) as f64;
+    // max_rel = k * ratio as a two-decimal product (0.99 * 11 = 10.89), or an integer, at least 1
+    let mut max_rel = if rng.chance(0.7) { (k * ratio * 100.0).round() / 100.0 } else { k.min(16.0) };
+    if max_rel < 1.0 {
+        max_rel = (1.0 / ratio).ceil() * ratio;
+        max_rel = (max_rel * 100.0).round() / 100.0;
+    }
+    let max_rel = max_rel.clamp(1.0, 40.0);
+    let step = (max_rel / ratio).ceil() as usize;
+    let sinc_len = *rng.pick(&[8usize, 16, 16, 24, 32]);
+    let flen = if kind.is_sinc() { sinc_len } else { 8 };
+    let fixed_in = matches!(kind, Kind::SincIn | Kind::FastIn);
+    let chunk = if fixed_in {
+        // every residue modulo the step, a few steps above the filter length
+        flen + 1 + rng.usize_in(0, 4 * step.max(1) + 8)
+    } else {
+        // fixed output: chunk * max_rel / ratio an exact integer
+        let per = (ratio * 100.0).round() as usize;
+        let g = {
+            fn gg(a: usize, b: usize) -> usize {
+                if b == 0 {
+                    a
+                } else {
+                    gg(b, a % b)
+                }
+            }
+            gg(per.max(1), 100)
+        };
+        ((per.max(1) / g) * rng.usize_in(1, 40)).clamp(1, 4096)
+    };
+    let custom = kind.is_sinc() && rng.chance(0.5);
+    let oversampling = *rng.pick(&[1usize, 2, 2, 3, 4, 8]);
+    let mut interp = rng.below(4) as u8;
+    if oversampling == 1 && interp >= 2 {
+        interp = 1;
+    }
+    let cfg = Config {
+        kind,
+        f32: rng.chance(0.5),
+        ratio,
+        rate_in: 1,
+        rate_out: 1,
+        max_rel,
+        chunk,
+        sub_chunks: 1,
+        channels: 1,
+        sinc_len: if custom { *rng.pick(&[3usize, 5, 7, 9, 15, 33]) } else { sinc_len },
+        oversampling,
+        interp,
+        window: rng.below(6) as u8,
+        f_cutoff: 0.95,
+        degree: rng.below(5) as u8,
+        kernel: if custom { Kernel::Custom } else { Kernel::Auto },
+        cpu_mask: 0,
+        mask: None,
+        empty_inactive: false,
+    };
+    let (lo, hi) = (1.0 / max_rel, max_rel);
+    let mut ops = Vec::new();
+    let rounds = rng.usize_in(1, 4);
+    for r in 0..rounds {
+        if max_rel > 1.0 {
+            ops.push(Op::SetRatio { rel: lo, ramp: r > 0 && rng.chance(0.3), relative_api: rng.chance(0.5) });
+        }
+        for _ in 0..rng.usize_in(1, 3) {
+            if cfg.kind.is_sinc() && fixed_in && rng.chance(0.5) {
+                ops.push(Op::SetChunk { n: rng.usize_in(1, chunk) });
+            }
+            ops.push(Op::process());
+        }
+        if max_rel > 1.0 {
+            ops.push(Op::SetRatio { rel: hi, ramp: rng.chance(0.2), relative_api: rng.chance(0.5) });
+        }
+        ops.push(Op::process());
+        ops.push(Op::process());
+        if rng.chance(0.3) {
+            ops.push(Op::Reset);
+        }
+    }
+    (cfg, ops)
+}
+
 /// Rough cost (multiply-adds) of one full processing call.
 pub fn call_cost(cfg: &Config, rel: f64) -> f64 {
     let ch = cfg.channels as f64;
